@@ -187,7 +187,7 @@ public:
             page_allocator_type page_allocator(allocator);
             micro_queue_pop_finalizer<self_type, value_type, page_allocator_type> finalizer(*this, page_allocator,
                 k + queue_rep_type::n_queue, index == items_per_page - 1 ? p : nullptr );
-            if (p->mask.load(std::memory_order_relaxed) & (std::uintptr_t(1) << index)) {
+            if (is_valid_page(p) && (p->mask.load(std::memory_order_relaxed) & (std::uintptr_t(1) << index))) {
                 success = true;
                 assign_and_destroy_item(dst, *p, index);
             } else {
